@@ -148,7 +148,104 @@ pub const SPECIAL_IDENTITIES: [usize; 3] = [5, 6, 7];
 pub const TWIN_IDENTITIES: [usize; 2] = [8, 9];
 static TWINS: OnceLock<Vec<Arc<Identity>>> = OnceLock::new();
 
+/// identity 10: a leaf certificate issued by the harness's own certification authority, which is the ONLY trust anchor
+/// of this process (`init_trust_env` points SSL_CERT_FILE at a file of the process's own and the authority's certificate
+/// is written there): the one certificate a client that checks certificates can accept here
+pub const TRUSTED_IDENTITY: usize = 10;
+static TRUST_PATH: OnceLock<std::path::PathBuf> = OnceLock::new();
+static TRUSTED: OnceLock<Arc<Identity>> = OnceLock::new();
+
+/// to be called once at process start, before any thread exists and before any TLS connector is built
+pub fn init_trust_env() {
+    let dir = std::env::current_exe().ok().and_then(|p| p.parent().map(|d| d.to_path_buf())).unwrap_or_else(std::env::temp_dir);
+    let path = dir.join(format!("trusted-ca-{}.pem", std::process::id()));
+    // nothing is trusted until the harness authority is written into the file
+    let _ = std::fs::write(&path, b"");
+    std::env::set_var("SSL_CERT_FILE", &path);
+    std::env::set_var("SSL_CERT_DIR", dir.join("no-such-certificate-directory"));
+    let _ = TRUST_PATH.set(path);
+}
+
+pub fn cleanup_trust_env() {
+    if let Some(p) = TRUST_PATH.get() {
+        let _ = std::fs::remove_file(p);
+    }
+}
+
+fn make_trusted() -> Identity {
+    use openssl::x509::extension::{BasicConstraints, KeyUsage};
+    let group = EcGroup::from_curve_name(Nid::X9_62_PRIME256V1).unwrap();
+    let ca_key = PKey::from_ec_key(EcKey::generate(&group).unwrap()).unwrap();
+    let mut n = X509NameBuilder::new().unwrap();
+    n.append_entry_by_text("CN", "rdpverif harness authority").unwrap();
+    let ca_name = n.build();
+    let mut b = X509::builder().unwrap();
+    b.set_version(2).unwrap();
+    let mut serial = BigNum::new().unwrap();
+    serial.rand(64, MsbOption::MAYBE_ZERO, false).unwrap();
+    b.set_serial_number(&serial.to_asn1_integer().unwrap()).unwrap();
+    b.set_subject_name(&ca_name).unwrap();
+    b.set_issuer_name(&ca_name).unwrap();
+    b.set_pubkey(&ca_key).unwrap();
+    b.set_not_before(&Asn1Time::days_from_now(0).unwrap()).unwrap();
+    b.set_not_after(&Asn1Time::days_from_now(365).unwrap()).unwrap();
+    b.append_extension(BasicConstraints::new().critical().ca().build().unwrap()).unwrap();
+    b.append_extension(KeyUsage::new().critical().key_cert_sign().crl_sign().build().unwrap()).unwrap();
+    b.sign(&ca_key, MessageDigest::sha256()).unwrap();
+    let ca = b.build();
+    if let Some(p) = TRUST_PATH.get() {
+        let _ = std::fs::write(p, ca.to_pem().unwrap());
+    }
+    let key = PKey::from_ec_key(EcKey::generate(&group).unwrap()).unwrap();
+    let mut n = X509NameBuilder::new().unwrap();
+    n.append_entry_by_text("CN", "rdpverif-trusted").unwrap();
+    let name = n.build();
+    let mut b = X509::builder().unwrap();
+    b.set_version(2).unwrap();
+    let mut serial = BigNum::new().unwrap();
+    serial.rand(64, MsbOption::MAYBE_ZERO, false).unwrap();
+    b.set_serial_number(&serial.to_asn1_integer().unwrap()).unwrap();
+    b.set_subject_name(&name).unwrap();
+    b.set_issuer_name(&ca_name).unwrap();
+    b.set_pubkey(&key).unwrap();
+    b.set_not_before(&Asn1Time::days_from_now(0).unwrap()).unwrap();
+    b.set_not_after(&Asn1Time::days_from_now(365).unwrap()).unwrap();
+    b.sign(&ca_key, MessageDigest::sha256()).unwrap();
+    let cert = b.build();
+    let cert_der = cert.to_der().unwrap();
+    let subject_public_key = spk_from_cert(&cert_der).expect("own certificate parses");
+    Identity { key, cert, cert_der, subject_public_key, key_type: KeyType::EcP256 }
+}
+
+/// is the trusted identity really acceptable to an independent verification against the file the process trusts?
+/// (the harness's own precondition; false when the trust file could not be set up)
+pub fn trusted_identity_verifies() -> bool {
+    use openssl::stack::Stack;
+    use openssl::x509::store::X509StoreBuilder;
+    use openssl::x509::X509StoreContext;
+    let leaf = identity(TRUSTED_IDENTITY);
+    let pem = match TRUST_PATH.get().and_then(|p| std::fs::read(p).ok()) {
+        Some(p) => p,
+        None => return false,
+    };
+    let cas = match X509::stack_from_pem(&pem) {
+        Ok(c) if !c.is_empty() => c,
+        _ => return false,
+    };
+    let mut sb = X509StoreBuilder::new().unwrap();
+    for c in cas {
+        let _ = sb.add_cert(c);
+    }
+    let store = sb.build();
+    let chain = Stack::new().unwrap();
+    let mut ctx = X509StoreContext::new().unwrap();
+    ctx.init(&store, &leaf.cert, &chain, |c| c.verify_cert()).unwrap_or(false)
+}
+
 pub fn identity(i: usize) -> Arc<Identity> {
+    if i == TRUSTED_IDENTITY {
+        return TRUSTED.get_or_init(|| Arc::new(make_trusted())).clone();
+    }
     if i == 8 || i == 9 {
         let v = TWINS.get_or_init(|| vec![Arc::new(make_identity(KeyType::Rsa2048Twin, "rdpverif-twin", false)), Arc::new(make_identity(KeyType::Rsa2048Twin, "rdpverif-twin", false))]);
         return v[i - 8].clone();
